@@ -157,6 +157,9 @@ def generate(seed, tier="quick"):
         f["header"].setdefault("pre", []).extend(["def external(name):  # the project's own helper", "    return 'data/' + name", "",
                                                   f"CONFIG = external({urng.choice(['settings', 'data/cfg.json', 'e1.json', 'x*y'])!r})"])
         kinds.append("own-function-named-external")
+    if sub(seed, "bom").random() < 0.06:
+        prog["files"][0]["header"]["bom"] = True  # the file starts with a UTF-8 byte order mark
+        kinds.append("byte-order-mark")
     W.sprinkle_uni(prog, sub(seed, "uni"), 0.12)
     start = None
     if driver == "plugin":
